@@ -398,39 +398,50 @@ pub fn observe(args: &Value) -> Value {
             let s = string_of(&args["s"]);
             match guarded(|| (CKCNumber::from_index(&s), ckc_rs::parse::get_rank_and_suit(&s))) {
                 Ok((w, (r, su))) => {
+                    put!("ok", json!(true));
                     put!("res", hilo(w));
                     put!("rank", json!(format!("{:?}", r)));
                     put!("suit", json!(format!("{:?}", su)));
                 }
                 Err(_) => {
-                    put!("res", json!("panic"));
+                    put!("ok", json!(false));
+                    put!("res", hilo(0));
+                    put!("rank", json!("panic"));
+                    put!("suit", json!("panic"));
                 }
             }
         }
         "parse_hand" => {
+            // kind: "ok" | "InvalidIndex" (or another HandError name) | "panic"; res is [] unless ok
             let s = string_of(&args["s"]);
             let n = args["n"].as_u64().unwrap() as usize;
             match guarded(|| Hand::parse(n, &s)) {
                 Ok(Ok(h)) => {
+                    put!("kind", json!("ok"));
                     put!("res", hilo_arr(&h.to_arr()));
                 }
                 Ok(Err(e)) => {
-                    put!("res", json!(e));
+                    put!("kind", json!(e));
+                    put!("res", json!([]));
                 }
                 Err(_) => {
-                    put!("res", json!("panic"));
+                    put!("kind", json!("panic"));
+                    put!("res", json!([]));
                 }
             }
             if n == 5 {
                 match guarded(|| ckc_rs::parse::five_from_index(&s)) {
                     Ok(Some(a)) => {
+                        put!("free_kind", json!("ok"));
                         put!("free", hilo_arr(&a));
                     }
                     Ok(None) => {
-                        put!("free", json!("None"));
+                        put!("free_kind", json!("None"));
+                        put!("free", json!([]));
                     }
                     Err(_) => {
-                        put!("free", json!("panic"));
+                        put!("free_kind", json!("panic"));
+                        put!("free", json!([]));
                     }
                 }
             }
@@ -439,10 +450,12 @@ pub fn observe(args: &Value) -> Value {
             let s = string_of(&args["s"]);
             match guarded(|| BinaryCard::from_index(&s)) {
                 Ok(b) => {
+                    put!("ok", json!(true));
                     put!("res", limbs(b));
                 }
                 Err(_) => {
-                    put!("res", json!("panic"));
+                    put!("ok", json!(false));
+                    put!("res", limbs(0));
                 }
             }
         }
@@ -475,17 +488,23 @@ pub fn observe(args: &Value) -> Value {
             put!("post", limbs(b));
         }
         "two_from_bc" => {
+            // kind: "ok" | the HandError name | "panic"; res is [] and back is 0 unless ok
             let b = u64_of(&args["bc"]);
             match guarded(|| Two::try_from(b)) {
                 Ok(Ok(t)) => {
+                    put!("kind", json!("ok"));
                     put!("res", hilo_arr(&t.to_arr()));
                     put!("back", limbs(BinaryCard::from_two(t)));
                 }
                 Ok(Err(e)) => {
-                    put!("res", json!(format!("{:?}", e)));
+                    put!("kind", json!(format!("{:?}", e)));
+                    put!("res", json!([]));
+                    put!("back", limbs(0));
                 }
                 Err(_) => {
-                    put!("res", json!("panic"));
+                    put!("kind", json!("panic"));
+                    put!("res", json!([]));
+                    put!("back", limbs(0));
                 }
             }
         }
